@@ -21,8 +21,8 @@ def universes(tier, base="StateMachine"):
 
     quick:    first (must_finish or not), reg, mf, optional default; all timed with lazy next_state links;
               in-state scripts of length <= 1 with next_state_now nesting <= 1.
-    thorough: the same shapes also with untimed states, two five-state universes (second regular and second
-              must_finish state), all with scripts of length 1; and ONE timed universe (StateMachine only) in which a
+    thorough: the same shapes also with untimed states, two four-state universes (a second, untimed regular
+              state), all with scripts of length 1; and ONE timed universe (StateMachine only) in which a
               state call may make two next_state_now requests ("hand over now" twice: where the second request can get
               lost).  Unrestricted scripts of length 2 on every shape need
               tens of GB and hours; that was run once during development (it found D6) and is not a registered tier.
@@ -38,11 +38,12 @@ def universes(tier, base="StateMachine"):
                 name = f"{base}[{kind};first{'+mf' if first_mf else ''};{'default' if with_default else 'nodefault'}]"
                 out.append((name, specs, 1, 1))
     if tier == "thorough":
+        # a fourth state (a second, untimed regular state); five states need ~10-20 GB and 15-30 minutes per universe
         for with_default in (False, True):
-            specs = [StateSpec("first", "timed", first=True), StateSpec("reg", "timed"), StateSpec("mf", "timed", must_finish=True), StateSpec("reg2", "state"), StateSpec("mf2", "timed", must_finish=True)]
+            specs = [StateSpec("first", "timed", first=True), StateSpec("reg", "timed"), StateSpec("mf", "timed", must_finish=True), StateSpec("reg2", "state")]
             if with_default:
                 specs.append(StateSpec("dflt", "default", params=("tm", "state_tm", "initial_call")))
-            out.append((f"{base}[five states;{'default' if with_default else 'nodefault'}]", specs, 1, 1))
+            out.append((f"{base}[four states;{'default' if with_default else 'nodefault'}]", specs, 1, 1))
         if base == "StateMachine":
             specs = [StateSpec("first", "timed", first=True), StateSpec("reg", "timed"), StateSpec("mf", "timed", must_finish=True)]
             out.append((f"{base}[timed;first;nodefault;two next_state_now requests per state call]", specs, 2, 1))
